@@ -31,12 +31,46 @@ def trace_case(optic, Hy, px, py, w):
     return realenc.impl_records(optic)
 
 
-def compare_records(ctx, case, rec, mod, start=1, fields=realenc.FIELDS, rtol=1e-9, atol=1e-10):
+def nr_wanders(optic, rec, j, r):
+    """True when surface j is an iteratively intersected shape and the code's own iteration, replayed for ray r with
+    the independent sag, has not converged when it stops (or leaves the sag domain): the values recorded there are
+    rounding-dependent iterates, not an intersection (F22 / F22b) - model and implementation are two such iterates"""
+    g = optic.surface_group.surfaces[j].geometry
+    if type(g).__name__ in ('Plane', 'StandardGeometry') or j == 0:
+        return False
+    P0 = np.array([rec[f][j - 1, r] for f in ('x', 'y', 'z')], dtype=float)
+    D0 = np.array([rec[f][j - 1, r] for f in ('L', 'M', 'N')], dtype=float)
+    if not (np.all(np.isfinite(P0)) and np.all(np.isfinite(D0))):
+        return False
+    loc0 = specgeom.to_local(g.cs, P0)
+    dloc = specgeom.to_local(g.cs, P0 + D0) - loc0
+    if abs(dloc[2]) < 1e-12:
+        return True
+    q = nr_replay(g, loc0, dloc)
+    if q is None:
+        return True
+    zs, _g = specgeom.shape(g, float(q[0]), float(q[1]))
+    return zs is None or abs(q[2] - zs) >= float(g.tol) or float((q - loc0) @ dloc) < -1e-9
+
+
+def compare_records(ctx, case, rec, mod, start=1, fields=realenc.FIELDS, rtol=1e-9, atol=1e-10, optic=None):
     """hard comparison on the property's domain: where the model's record is finite"""
     nsurf, nray = rec['x'].shape
     ok = True
+    wandering = set()
     for j in range(start, nsurf):
         for r in range(nray):
+            if r in wandering:
+                continue
+            if optic is not None and any(
+                    not (rec[f][j, r] == mod[f][j, r] or abs(rec[f][j, r] - mod[f][j, r]) <=
+                         atol + rtol * max(abs(rec[f][j, r]), abs(mod[f][j, r])))
+                    for f in ('x', 'y', 'z') if math.isfinite(rec[f][j, r]) and math.isfinite(mod[f][j, r])) \
+                    and nr_wanders(optic, rec, j, r):
+                ctx.count('ray-surface: unconverged Newton-Raphson iterate (soft)')
+                ctx.drift.append({'what': 'unconverged iterate at surface %d ray %d' % (j, r), 'case': case})
+                wandering.add(r)
+                continue
             geo_m = [mod[f][j, r] for f in ('x', 'y', 'z', 'L', 'M', 'N')]
             geo_i = [rec[f][j, r] for f in ('x', 'y', 'z', 'L', 'M', 'N')]
             fin_m = all(math.isfinite(v) for v in geo_m)
@@ -123,8 +157,10 @@ def predicate(ctx, optic, case, rec, w):
                             key = 'nr-backward-intersection'
                         elif q is not None:
                             zs, _g = specgeom.shape(g, float(q[0]), float(q[1]))
-                            if zs is not None and abs(q[2] - zs) >= float(g.tol) and \
-                                    np.linalg.norm(q - loc) <= 1e-6 * max(1.0, float(np.linalg.norm(loc))):
+                            # (for a contracting iteration the replay ends at the recorded point; where the
+                            #  iteration wanders, rounding differences between the two sag routines are amplified and
+                            #  only the fact that it has not converged is reproducible)
+                            if zs is not None and abs(q[2] - zs) >= float(g.tol):
                                 key = 'nr-not-converged'
                 elif name == 'StandardGeometry':
                     a = kk * dloc[2] ** 2 + dloc[0] ** 2 + dloc[1] ** 2 + dloc[2] ** 2
@@ -295,7 +331,7 @@ def run_cases(ctx, cases, drv, with_predicate=True, fields=realenc.FIELDS):
         if isinstance(mod, tuple):
             ctx.disagreements.append({'what': 'model ' + mod[0], 'model': mod[1], 'case': case})
             continue
-        compare_records(ctx, case, rec, mod, fields=fields)
+        compare_records(ctx, case, rec, mod, fields=fields, optic=optic)
         if with_predicate:
             predicate(ctx, optic, case, rec, w)
     return keep
